@@ -134,6 +134,7 @@ void Runner<A>::doReject(const sim::Op &op) {
     const auto &en = tab.e[modn(op.x, (unsigned)tab.e.size())];
     const unsigned n = m.n;
     unsigned a = n ? modn(op.a >> 4, n) : 0, b = n ? modn(op.b >> 4, n) : 0;
+    if (hub >= 0 && (unsigned)hub < n && (op.y & 4)) { a = (unsigned)hub; b = (unsigned)hub; } // the valid argument is the hub
     bool flag = en.hasFlag && (op.y & 1);
     std::string cell = en.name;
     const L lab = labelOf(valArg(op));
@@ -158,7 +159,12 @@ void Runner<A>::doReject(const sim::Op &op) {
     } else { // P_MISSING: a pair that is not an edge
         std::vector<Key> absent;
         for (unsigned i = 0; i < n; ++i)
-            for (unsigned j = 0; j < n; ++j) if (!m.has(i, j)) absent.push_back(Key(i, j));
+            for (unsigned j = 0; j < n; ++j) {
+                if (m.has(i, j)) continue;
+                // a pair carrying a documented orphan label (setEdgeLabel force=true) legitimately has a label to return
+                if (m.orphan.count(m.key(i, j)) && en.name.rfind("getEdgeLabel", 0) == 0) continue;
+                absent.push_back(Key(i, j));
+            }
         if (absent.empty()) { res.probes.inc("reject_skipped_no_absent_pair"); return; }
         Key k = absent[modn(op.a * 64 + op.b, (unsigned)absent.size())];
         a = k.first; b = k.second;
